@@ -144,8 +144,11 @@ def simulate_unit(unit, plan, root, uidx, workdir, tree="/repo"):
 
 
 def _ctx(unit, comp, inputs_by_sid, lines):
-    return {"label": unit["label"], "source": unit["source"], "argv": unit["argv"],
-            "inputs": {str(k): v.hex() for k, v in inputs_by_sid.items()}, "script": lines}
+    c = {"label": unit["label"], "source": unit["source"], "argv": unit["argv"],
+         "inputs": {str(k): v.hex() for k, v in inputs_by_sid.items()}, "script": lines}
+    if unit.get("family"):
+        c["family"] = unit["family"]
+    return c
 
 
 def _simulate_built(unit, P, root, uidx, comp, drv, scratch, res):
@@ -217,6 +220,11 @@ def _simulate_built(unit, P, root, uidx, comp, drv, scratch, res):
             stats["canon_unusable"] += 1
             continue
         canons[(xi, fill)] = cn
+        if unit.get("family") and fill == 0:
+            from . import families
+            for f in families.check_canon(unit["family"], xs[xi], cn, flags):
+                _add(res, f, ctx, "canonical-model")
+            stats["model_checked"] = stats.get("model_checked", 0) + 1
         if len(res["samples"]) < 2:
             res["samples"].append({"kind": "canonical", "input": xs[xi].hex(), "script_head": lines[:8],
                                    "steps": [(s.i, s.code, s.pos_after, len(s.events)) for s in cn.steps[:12]]})
@@ -420,6 +428,10 @@ def evaluate_script(unit, comp, drv, scratch, ins, lines, fill=0, want=("L2", "L
             _add(res, f, ctx, "canonical")
         if cn.ok:
             canons[sid] = cn
+            if unit.get("family") and fill == 0:
+                from . import families
+                for f in families.check_canon(unit["family"], ins[sid], cn, flags):
+                    _add(res, f, ctx, "canonical-model")
     run, crash = out.get(1000, (None, ("harness", "missing", "")))
     ctx = _ctx(unit, comp, ins, lines)
     if crash is not None:
